@@ -89,12 +89,19 @@ def rand_float(rnd, special=.25):
     return x
 
 
+def is_alias(n):
+    """femio renames a variable whose name is one of its alias keys (config.DICT_ALIASES, e.g. 'vf' -> 'VF',
+    'disp' -> 'DISPLACEMENT') when it is stored: such reserved names are not arbitrary user names"""
+    from femio import config
+    return config.DICT_ALIASES.get(n, n) != n
+
+
 def rand_names(rnd, k, taken=()):
     out = []
     while len(out) < k:
         n = rnd.choice(NAMES) if rnd.random() < .6 else \
             rnd.choice(ALNUM[:52]) + ''.join(rnd.choice(ALNUM) for _ in range(rnd.randint(0, 9)))
-        if n in out or n in taken or n == 'NODE':
+        if n in out or n in taken or n == 'NODE' or is_alias(n):
             continue
         out.append(n)
     return out
